@@ -395,8 +395,9 @@ func (s *JavaFullListener) EnterMethodDeclaration(ctx *parser.MethodDeclarationC
 	}
 
 	// check, before your refactor
+	// line and column both denote the method's identifier: the return type may stand on an earlier line
 	position := core_domain.CodePosition{
-		StartLine:         ctx.GetStart().GetLine(),
+		StartLine:         ctx.Identifier().GetStart().GetLine(),
 		StartLinePosition: ctx.Identifier().GetStart().GetColumn(), // different
 		StopLine:          ctx.GetStop().GetLine(),
 		StopLinePosition:  ctx.Identifier().GetStart().GetColumn() + utf8.RuneCountInString(name), // columns count characters
